@@ -101,6 +101,9 @@ func hexPath(p string) string {
 	return strings.Join(segs, "/")
 }
 
+// HexPath is the path encoding of the case and reply lines ("." stays ".", every other segment is hex-encoded).
+func HexPath(p string) string { return hexPath(p) }
+
 func unhexPath(p string) string {
 	if p == "." {
 		return "."
@@ -722,6 +725,27 @@ type Result struct {
 	Pkgs  []string // sorted package keys, for order-independence checks
 }
 
+// findingsToken renders the findings of a scan result IN THE ORDER Scan returned them, each as <extractor id>@<hexPath(path)>
+// recovered from the advisory Reference "F-<id>-<path>" the fake extractor emits (the path may itself contain dashes: split at
+// the first two only). "-" when there are none, "!bad" when a finding does not have that shape.
+func findingsToken(fs []*detector.Finding) string {
+	var out []string
+	for _, f := range fs {
+		if f == nil || f.Adv == nil || f.Adv.ID == nil {
+			return "!bad"
+		}
+		parts := strings.SplitN(f.Adv.ID.Reference, "-", 3)
+		if len(parts) != 3 || parts[0] != "F" || parts[2] == "" || f.Adv.ID.Publisher != "fx" {
+			return "!bad"
+		}
+		if _, err := strconv.Atoi(parts[1]); err != nil || parts[1] == "" || parts[1][0] == '+' {
+			return "!bad"
+		}
+		out = append(out, parts[1]+"@"+hexPath(parts[2]))
+	}
+	return hx.Join(out, ";")
+}
+
 // Run executes scalibr.Scan on the case and renders the reply line.
 func Run(c *Case, mk func(*scalibr.ScanConfig), slow time.Duration) string {
 	var calls []string
@@ -817,10 +841,10 @@ func Run(c *Case, mk func(*scalibr.ScanConfig), slow time.Duration) string {
 			}
 			st = append(st, s.Name[1:]+"="+x)
 		}
-		return "err=none pkgs=" + hx.Join(pk, ";") + " st=" + hx.Join(st, ",")
+		return "err=none pkgs=" + hx.Join(pk, ";") + " st=" + hx.Join(st, ",") + " fnd=" + findingsToken(r.Inventory.Findings)
 	}()
 	if !strings.Contains(body, "pkgs=") {
-		body += " pkgs=- st=-"
+		body += " pkgs=- st=- fnd=-"
 	}
 	return fmt.Sprintf("%s vis=%d calls=%s", body, col.n, hx.Join(calls, ";"))
 }
